@@ -106,6 +106,10 @@ func (c *FnCtx) ghostIntrinsic(fr *Frame, st *State, fn *ssa.Function, args []*T
 		return []*Term{c.getCell(st, c.curFrame.iterByLoop[int(k)].count)}, true
 	case "verifHeight":
 		return []*Term{c.height(st, args[0])}, true
+	case "verifMapsSameExcept", "verifMapSameExceptKey", "verifMapSameExceptKeys", "verifOldHas", "verifOldGet", "verifOldLen":
+		return c.heapRelIntrinsic(st, fn.Name(), args), true
+	case "verifSameMap": // identity of two maps
+		return []*Term{ts.Eq(args[0], args[1])}, true
 	case "verifSameVal": // equality of two values (maps by identity)
 		return []*Term{ts.Eq(args[0], args[1])}, true
 	case "verifSeqEq": // equality of two slices as sequences of values (maps compared by identity)
@@ -648,4 +652,43 @@ func (c *FnCtx) tokenModel(st *State, dec *Term, raw bool, cc *ssa.CallCommon) [
 		c.gset(st, "G:xddepth", dec, nd)
 	}
 	return []*Term{res, err}
+}
+
+// heapRelIntrinsic: two-state predicates of postconditions, relating the map heaps of the pre-state ("old":
+// the state at function entry, or just before a call) to the current ones.
+func (c *FnCtx) heapRelIntrinsic(st *State, name string, args []*Term) []*Term {
+	ts := c.eng.ts
+	old := c.oldState
+	if old == nil {
+		unsupported("%s is only meaningful in a postcondition", name)
+	}
+	mt := types.NewMap(types.Typ[types.String], types.NewInterfaceType(nil, nil))
+	mh := c.mapHeaps(st, mt)
+	dom0, sel0, len0 := c.heap(old, mh.dom, mh.sdom), c.heap(old, mh.sel, mh.ssel), c.heap(old, mh.ln, mh.sln)
+	dom1, sel1, len1 := c.heap(st, mh.dom, mh.sdom), c.heap(st, mh.sel, mh.ssel), c.heap(st, mh.ln, mh.sln)
+	switch name {
+	case "verifMapsSameExcept": // every map that existed in the old state, other than p, has the same entries
+		o := ts.Bound("o", SInt)
+		c.frameFacts(dom1, o)
+		body := ts.And(ts.Eq(ts.Select(dom1, o), ts.Select(dom0, o)), ts.Eq(ts.Select(sel1, o), ts.Select(sel0, o)), ts.Eq(ts.Select(len1, o), ts.Select(len0, o)))
+		return []*Term{ts.Quant("forall", o, ts.Implies(ts.And(ts.Lt(ts.Int(0), o), ts.Lt(o, old.wm), ts.Not(ts.Eq(o, args[0]))), body))}
+	case "verifMapSameExceptKey", "verifMapSameExceptKeys": // map p has the same entries as before except at the given key(s)
+		k := ts.Bound("k", SString)
+		conds := []*Term{ts.Not(ts.Eq(k, args[1]))}
+		if name == "verifMapSameExceptKeys" {
+			conds = append(conds, ts.Not(ts.Eq(k, args[2])))
+		}
+		d1, d0 := ts.Select(dom1, args[0]), ts.Select(dom0, args[0])
+		s1, s0 := ts.Select(sel1, args[0]), ts.Select(sel0, args[0])
+		body := ts.And(ts.Eq(ts.Select(d1, k), ts.Select(d0, k)), ts.Implies(ts.Select(d0, k), ts.Eq(ts.Select(s1, k), ts.Select(s0, k))))
+		return []*Term{ts.Quant("forall", k, ts.Implies(ts.And(conds...), body))}
+	case "verifOldHas":
+		return []*Term{ts.Select(ts.Select(dom0, args[0]), args[1])}
+	case "verifOldGet":
+		return []*Term{ts.Select(ts.Select(sel0, args[0]), args[1])}
+	case "verifOldLen":
+		return []*Term{ts.Select(len0, args[0])}
+	}
+	unsupported("heapRelIntrinsic %s", name)
+	return nil
 }
